@@ -233,6 +233,11 @@ func residueSpecials(r *vh.Rng, rp resParam, size int, n int) []input {
 			v := new(big.Int).Mul(member, m)
 			push("residue/member*outside", v.Mod(v, rp.P))
 		}
+		// congruent to a member, not canonical (the decoder takes any length)
+		for k := int64(1); k <= 3; k++ {
+			v := new(big.Int).Add(member, new(big.Int).Mul(rp.P, big.NewInt(k)))
+			ins = append(ins, input{"congruent/member+kP", v.Bytes()}, input{"congruent/member+kP", append([]byte{0}, v.Bytes()...)})
+		}
 		push("residue/random-unit", h)
 		push("residue/random-square", new(big.Int).Exp(h, big.NewInt(2), rp.P))
 	}
